@@ -32,6 +32,8 @@ def render(case, e):
   if k == 'num':
     v, style = e[1], e[2]
     if style == 'glob': return f'KI_{v}'
+    if style == 'loc': return f'LI_{v}'
+    if style == 'globb': return f'KB_{v}'
     if style == 'hex': return hex(v)
     return str(v)
   if k == 'lv': return f'i{e[1]}'
@@ -42,6 +44,8 @@ def render(case, e):
   if k == 'ite': return '(' + render(case, e[2]) + ' if ' + render(case, e[1]) + ' else ' + render(case, e[3]) + ')'
   if k == 'cast':
     if e[3] == 'const': return f's.KB{e[1]}_{e[2][1]}'
+    if e[3] == 'globfv': return f'KG{e[1]}_{e[2][1]}'
+    if e[3] == 'locfv': return f'LB{e[1]}_{e[2][1]}'
     return f'Bits{e[1]}( ' + render(case, e[2]) + ' )'
   if k == 'ext':
     return f'{e[1]}( ' + render(case, e[3]) + ', ' + (f'Bits{e[4]}' if e[2] else str(e[4])) + ' )'
@@ -112,6 +116,19 @@ def tmp_defs(stmts, out=None):
     elif st[0] == 'for': tmp_defs(st[5], out)
   return out
 
+def free_vars(case):
+  """bare-name constants of the block: module level [(name, source)], construct() locals [(name, source)]"""
+  glob, loc = {}, {}
+  def see(e):
+    if e[0] == 'num':
+      if e[2] == 'loc': loc[f'LI_{e[1]}'] = str(e[1])
+      if e[2] == 'globb': glob[f'KB_{e[1]}'] = 'True' if e[1] else 'False'
+    if e[0] == 'cast':
+      if e[3] == 'globfv': glob[f'KG{e[1]}_{e[2][1]}'] = f'Bits{e[1]}( {e[2][1]} )'
+      if e[3] == 'locfv': loc[f'LB{e[1]}_{e[2][1]}'] = f'Bits{e[1]}( {e[2][1]} )'
+  for ex, _ in top_exprs(case['block']): walk_exprs(ex, see)
+  return sorted(glob.items()), sorted(loc.items())
+
 def class_source(case):
   cons_i, cons_b, widths = set(), set(), set()
   def see(e):
@@ -129,6 +146,7 @@ def class_source(case):
   for x, w, d in case['sigs']:
     lines.append(f'    s.{"i" if d == "in" else "o"}{x} = {"InPort" if d == "in" else "OutPort"}( Bits{w} )')
   for n, v in sorted(cons_b): lines.append(f'    s.KB{n}_{v} = Bits{n}( {v} )')
+  for nm, src in free_vars(case)[1]: lines.append(f'    {nm} = {src}')
   lines.append('    @update')
   lines.append('    def up():')
   body = render_stmts(case, case['block'], 3)
@@ -145,6 +163,9 @@ def module_source(cases):
   head = ['from pymtl3 import *', 'from pymtl3.datatypes import mk_bits', '']
   for w in sorted(widths): head.append(f'Bits{w} = mk_bits( {w} )')
   for v in sorted(cons_i): head.append(f'KI_{v} = {v}')
+  gl = {}
+  for c in cases: gl.update(dict(free_vars(c)[0]))
+  for nm, src in sorted(gl.items()): head.append(f'{nm} = {src}')
   return '\n'.join(head + [''] + body) + '\n', names
 
 _modcount = [0]
@@ -240,7 +261,14 @@ def lit_value(rng, w):
 
 def num(rng, v):
   r = rng.random()
-  return ['num', v, 'glob' if r < 0.12 else ('hex' if r < 0.25 else 'lit')]
+  if r < 0.05: return ['num', v, 'loc']                      # an int local of construct() captured by the block
+  if r < 0.08 and v <= 1: return ['num', v, 'globb']          # a module-level bool
+  return ['num', v, 'glob' if r < 0.18 else ('hex' if r < 0.3 else 'lit')]
+
+def bits_const(rng, n, v):
+  """a BitsN constant: cast call, component attribute, module-level name or construct() local"""
+  if v >= (1 << n): return ['cast', n, ['num', v, 'lit'], 'call']      # does not fit: only the call form can be written
+  return ['cast', n, ['num', v, 'lit'], rng.choice(['call', 'const', 'globfv', 'locfv'])]
 
 class Gen:
   """type-directed generator: `hard(w)` builds a term that is a w-bit Bits value, `soft(w)` one that may
@@ -351,6 +379,10 @@ class Gen:
     literal branch (typed explicit, may hold a Python int)"""
     r = self.rng.random()
     if r < 0.33: return self.literal(w)
+    if self.rng.random() < 0.04 + self.noise:
+      # a BitsN constant referenced by bare name, narrower / equal / wider than the context: explicit of its own width
+      nw = max(1, w + self.rng.choice([0, 0, -1, -2, 1, 4]))
+      return ['cast', nw, ['num', lit_value(self.rng, nw), 'lit'], self.rng.choice(['globfv', 'locfv'])]
     if self.rng.random() < 0.05 + self.noise:
       # a comparison result (RTLIR data type Bool, one bit) meeting a w-bit operand: rejected unless w == 1
       return self.bool_term(max(0, d - 1))
@@ -420,7 +452,7 @@ class Gen:
       if rng.random() < 0.5:
         v = lit_value(rng, w)
         if self.bad(): v = (1 << w) + rng.randint(0, 3)
-        return ['cast', w, ['num', v, 'lit'], 'const' if rng.random() < 0.5 else 'call']
+        return bits_const(rng, w, v)
       return ['cast', w, self.hard(self.width_near(w), d - 1), 'call']
     if ch < 0.76:
       kind = rng.choice(['zext', 'sext', 'trunc'])
@@ -697,6 +729,38 @@ def gen_mixite(rng, uid):
   body = pre + [use]
   block = [['for', 0, 0, min(top, 3) + 1, 1, body]] if in_loop and top >= 1 else body
   return {'uid': uid, 'stream': 'mixite', 'sigs': g.sigs, 'block': block}
+
+# ---- free variables: bare names bound to BitsN constants / ints / bools at module level or as construct() locals
+
+def gen_fvar(rng, uid):
+  """a bare-name constant K (BitsN narrower / equal / wider than its partner, or an int / bool) as operand of an
+  operator, of a comparison, if-expression branch, right-hand side, index, slice bound or shift amount"""
+  g = Gen(rng, uid, 'fvar', 0.0)
+  w = rng.choice([2, 3, 4, 8, 16])
+  x = g.new_in(w); c = g.new_in(1); o = g.new_out(w); o1 = g.new_out(1)
+  X, C, O, O1 = ['sig', x[0], w], ['sig', c[0], 1], ['sig', o[0], w], ['sig', o1[0], 1]
+  r = rng.random()
+  if r < 0.7:
+    kw = max(1, rng.choice([w, w, w - 1, w - 2, w // 2, 1, w + 1, w + 4]))
+    K = ['cast', kw, ['num', lit_value(rng, kw), 'lit'], rng.choice(['globfv', 'locfv', 'globfv', 'locfv', 'const'])]
+  elif r < 0.9: K = ['num', lit_value(rng, rng.choice([w, w, w + 2])), rng.choice(['glob', 'loc'])]
+  else: K = ['num', rng.randint(0, 1), 'globb']
+  l, rr = (X, K) if rng.random() < 0.6 else (K, X)
+  k = rng.random()
+  if k < 0.3: st = ['asg', O, ['bin', rng.choice(MAXOPS), l, rr]]
+  elif k < 0.45: st = ['asg', O1, ['cmp', rng.choice(list(CMPOP)), l, rr]]
+  elif k < 0.6: st = ['asg', O, ['ite', C, l, rr]]
+  elif k < 0.72: st = ['asg', O, K]
+  elif k < 0.8: st = ['asg', O, ['bin', rng.choice(SHIFTS), X, K]]
+  elif k < 0.88: st = ['asg', O1, ['idx', x[0], w, K]]
+  elif k < 0.94: st = ['ifs', ['cmp', 'eq', l, rr], [['asg', O, X]], []]
+  else:
+    kv = K[2][1] if K[0] == 'cast' else K[1]
+    lo = min(kv, w - 1)
+    K2 = K[:2] + [['num', lo, 'lit']] + K[3:] if K[0] == 'cast' else ['num', lo, K[2] if lo > 1 or K[2] != 'globb' else 'glob']
+    o2 = g.new_out(w - lo)
+    st = ['asg', ['sig', o2[0], w - lo], ['slc', x[0], w, K2, num(rng, w)]]
+  return {'uid': uid, 'stream': 'fvar', 'sigs': g.sigs, 'block': [st]}
 
 # ---- labelled streams: one per known soundness hole of the checker (each is a parameterised witness)
 
